@@ -152,7 +152,7 @@ fn inner(prop: &str, mut t: Tape, rep: &mut WorldReport) {
         },
         ties: t.chance(1, 3),
         distinct: false,
-        hostile_datums: prop == "C14" && t.draw(8) == 7,
+        hostile_datums: prop == "C14" && t.draw(5) == 4,
     };
     let (faults, stratum) = draw_faults(&mut t, prop);
     let direct = matches!(prop, "C03" | "C04") && t.chance(2, 3);
@@ -203,6 +203,26 @@ fn inner(prop: &str, mut t: Tape, rep: &mut WorldReport) {
             comp = SimCompiler::new(make_compiler(&pp));
         } else {
             w.lock().unwrap().fire("reuse");
+            // a long-lived instance outlives its settings: at an epoch boundary the operator updates the
+            // protocol parameters, the fee margin and the cursor of the instance in place (they are
+            // public fields); what it compiles from then on follows the settings it has now
+            let change = { w.lock().unwrap().tape.draw(4) == 3 };
+            if change {
+                let mut g = w.lock().unwrap();
+                let mut pp2 = draw_pparams(&mut g.tape, true);
+                pp2.mainnet = pp.mainnet;
+                pp2.cost_models = pp.cost_models;
+                pp2.cm_salt = pp.cm_salt;
+                pp2.slot = pp.slot + g.tape.draw(1000);
+                pp2.time = pp.time;
+                drop(g);
+                let donor = make_compiler(&pp2);
+                comp.inner.pparams = donor.pparams;
+                comp.inner.config = donor.config;
+                comp.inner.cursor = donor.cursor;
+                pp = pp2;
+                w.lock().unwrap().fire("settings-changed-on-a-live-instance");
+            }
         }
         let cancel_after = {
             let mut g = w.lock().unwrap();
@@ -265,6 +285,45 @@ fn inner(prop: &str, mut t: Tape, rep: &mut WorldReport) {
             }
             w.lock().unwrap().fire("args-via-json");
         }
+        // a caller of the Rust API may leave things in the argument map that no declaration asks for -
+        // here a ready-made UTxO set under the very name of an input block (a wallet that did its own
+        // coin selection for another template): the template has no use for it, every block is still
+        // resolved against the store, and what is bound must still honour what the block states
+        {
+            let mut g = w.lock().unwrap();
+            if g.tape.draw(12) == 11 {
+                let names: Vec<String> = txspec.inputs.iter().map(|i| i.name.to_lowercase()).chain(txspec.collateral.iter().map(|_| "collateral".to_string())).collect();
+                if !names.is_empty() {
+                    let name = names[g.tape.index(names.len())].clone();
+                    let keys: Vec<RefKey> = g.chain.utxos.keys().cloned().collect();
+                    let mut set = std::collections::HashSet::new();
+                    let n = 1 + g.tape.index(2);
+                    for _ in 0..n {
+                        if !keys.is_empty() && g.tape.chance(3, 4) {
+                            let k = keys[g.tape.index(keys.len())].clone();
+                            set.insert(g.chain.utxos[&k].to_utxo(&k));
+                        } else {
+                            // one that exists nowhere
+                            let k: RefKey = (vec![0xABu8; 32], g.tape.draw(3) as u32);
+                            set.insert(
+                                SimUtxo {
+                                    address: program.parties[g.tape.index(program.parties.len())].addr.clone(),
+                                    value: [(None, 77_000_000i128)].into_iter().collect(),
+                                    datum: None,
+                                    script: None,
+                                }
+                                .to_utxo(&k),
+                            );
+                        }
+                    }
+                    if !wire_args.contains_key(&name) {
+                        wire_args.insert(name.clone(), tx3_tir::reduce::ArgValue::UtxoSet(set));
+                        shown_args.insert(name, "a ready-made UTxO set (undeclared extra)".to_string());
+                        g.fire("utxo-set-under-an-input-name");
+                    }
+                }
+            }
+        }
         if let Some(why) = json_rejected {
             // the request is refused at the boundary: nothing is resolved
             shown_res.push(json!({"tx": txspec.name, "args": shown_args, "result": {"outcome": "Err/argument-rejected", "text": why}}));
@@ -272,7 +331,7 @@ fn inner(prop: &str, mut t: Tape, rep: &mut WorldReport) {
         }
         let shown;
         if direct {
-            shown = run_direct(&w, &program, &txspec, &tir_tx, &plan.args, &pp, stratum, rep, &ctx);
+            shown = run_direct(&w, &program, &txspec, &tir_tx, &plan.args, &wire_args, &pp, stratum, rep, &ctx);
         } else {
             shown = run_e2e(
                 prop,
@@ -301,6 +360,7 @@ fn inner(prop: &str, mut t: Tape, rep: &mut WorldReport) {
     rep.events = g.log.n;
     rep.ticks = g.now;
     rep.stub_calls = g.calls;
+    *rep.probes.entry("simulated-wall-clock-ms".to_string()).or_insert(0) += (g.now as u128 * g.cfg.tick_len_ns() as u128 / 1_000_000).min(u64::MAX as u128 / 4) as u64;
     if crate::clock::reads() > 0 {
         // nothing on the unchanged tree reads a clock; when something does, it reads the world's
         rep.probe("clock-read-by-code-under-test");
@@ -628,6 +688,7 @@ fn run_direct(
     txspec: &TxSpec,
     tir_tx: &tir::Tx,
     args: &ArgMap,
+    wire_args: &ArgMap,
     pp: &PPCfg,
     stratum: &str,
     rep: &mut WorldReport,
@@ -639,7 +700,7 @@ fn run_direct(
     };
     let mut real = make_compiler(pp);
     let prepared = guarded(|| -> Result<tir::Tx, String> {
-        let t = tx3_tir::reduce::apply_args(tir_tx.clone(), args).map_err(|e| format!("{e:?}"))?;
+        let t = tx3_tir::reduce::apply_args(tir_tx.clone(), wire_args).map_err(|e| format!("{e:?}"))?;
         let t = tx3_tir::reduce::apply_fees(t, fee).map_err(|e| format!("{e:?}"))?;
         let t = t.apply(&mut real).map_err(|e| format!("{e:?}"))?;
         tx3_tir::reduce::reduce(t).map_err(|e| format!("{e:?}"))
@@ -1309,6 +1370,7 @@ fn inner_examples(world_no: u64, mut t: Tape, rep: &mut WorldReport) {
     rep.events = g.log.n;
     rep.ticks = g.now;
     rep.stub_calls = g.calls;
+    *rep.probes.entry("simulated-wall-clock-ms".to_string()).or_insert(0) += (g.now as u128 * g.cfg.tick_len_ns() as u128 / 1_000_000).min(u64::MAX as u128 / 4) as u64;
     if crate::clock::reads() > 0 {
         // nothing on the unchanged tree reads a clock; when something does, it reads the world's
         rep.probe("clock-read-by-code-under-test");
